@@ -18,6 +18,8 @@ else
   trap 'git -C /repo worktree remove --force $W 2>/dev/null; rm -rf $W' EXIT
   git -C $W apply $d/patch.diff || { echo "patch does not apply"; exit 2; }
   export VERIF_REPO=$W
+  export VERIF_REPLAY_DIR=$W.replays
+  trap 'git -C /repo worktree remove --force $W 2>/dev/null; rm -rf $W $W.replays' EXIT
 fi
 for tier in $tiers; do
   t0=$(date +%s)
